@@ -9,6 +9,8 @@ import (
 	"strings"
 	"time"
 
+	"github.com/lindb/lindb/aggregation/function"
+	"github.com/lindb/lindb/pkg/collections"
 	"github.com/lindb/lindb/zzverif/internal/core"
 )
 
@@ -233,11 +235,24 @@ func (r *run) scopeSeries(q qSpec) []int {
 // region classifies the query: "" = inside the region where the property is claimed, otherwise
 // the name of the excluded region (a recorded finding) the query falls into.
 func (r *run) region(q qSpec) string {
+	// -arg assume-fixed=<region>,<region>: used when a candidate fix is tested against a scratch
+	// tree (AGENT_GUIDE "testing a candidate fix"): the oracle then also applies in these regions
+	for _, reg := range r.regions(q) {
+		if !strings.Contains(","+r.c.Args["assume-fixed"]+",", ","+reg+",") {
+			return reg
+		}
+	}
+	return ""
+}
+
+// regions lists every excluded region (recorded finding) the query falls into.
+func (r *run) regions(q qSpec) []string {
+	var regs []string
 	if r.sh.unsafeEver {
-		return "unsafe-window-order"
+		regs = append(regs, "unsafe-window-order")
 	}
 	if r.collided {
-		return "created-tick-collision"
+		regs = append(regs, "created-tick-collision")
 	}
 	aggsOfField := map[int]map[int]bool{}
 	for _, it := range q.items {
@@ -250,7 +265,8 @@ func (r *run) region(q qSpec) string {
 	}
 	for _, m := range aggsOfField {
 		if len(m) > 1 {
-			return "multi-func-field"
+			regs = append(regs, "multi-func-field")
+			break
 		}
 	}
 	for _, it := range q.items {
@@ -258,28 +274,29 @@ func (r *run) region(q qSpec) string {
 		a := funcAgg(ft, it.fn)
 		fa := aggOfFieldType(ft)
 		if (a != fa || !commutative(fa)) && r.sh.splitField[it.fld] {
-			return "split-slot"
+			regs = append(regs, "split-slot")
 		}
 		if !commutative(a) {
 			if q.ratio > 1 {
 				// down-sampling with first/last follows the order in which storage units are loaded
-				return "firstlast-downsampling"
+				regs = append(regs, "firstlast-downsampling")
 			}
 			// first/last over several series of a group is not defined by the property
 			for _, g := range r.nv.groups(q.cond, q.by) {
 				if len(g.series) > 1 {
-					return "firstlast-multi-series"
+					regs = append(regs, "firstlast-multi-series")
+					break
 				}
 			}
 		}
 	}
 	if r.sh.notFoundRegion(q, r.scopeSeries(q)) {
-		return "family-notfound"
+		regs = append(regs, "family-notfound")
 	}
 	if r.sh.singleFieldFileRegion(q) {
-		return "single-field-file"
+		regs = append(regs, "single-field-file")
 	}
-	return ""
+	return regs
 }
 
 // query executes one leaf query: model correspondence (q), reference correspondence (ref) and,
@@ -316,6 +333,9 @@ func (r *run) query(q qSpec) (aggResult, string) {
 	}
 	if len(want) > 0 {
 		r.c.NonTrivial()
+	}
+	if res != nil && implLine != "harness-error" && implLine != "rs-error" {
+		r.exprCheck(q, res)
 	}
 	if r.oracleOn && reg == "" && implLine != "harness-error" && implLine != wantLine {
 		r.failed = true
@@ -474,6 +494,13 @@ func runRandom(c *core.Ctx, idx int) {
 			doQuery()
 		}
 	}
+	// the function calls of the expression layer on one value, against the Lean `funcCall`
+	for k := 0; k < 2; k++ {
+		fn := []int{fnSum, fnMin, fnMax, fnCount, fnAvg, fnLast, fnFirst, fnRate, fnStddev}[rng.Intn(9)]
+		sec := []int{1, 5, 10, 60, 300}[rng.Intn(5)]
+		v := rng.Intn(2001) - 1000
+		c.Op(fmt.Sprintf("fcall %d %d %d", fn, sec, v), realFuncCall(fn, sec, v))
+	}
 	if r.sh.unsafeEver {
 		c.Branch("case/unsafe-order-happened")
 	}
@@ -508,9 +535,6 @@ func genQuery(rng *rand.Rand, r *run, flds []int, useHist bool, fams []int) qSpe
 		fn := sf[rng.Intn(len(sf))]
 		if rng.Intn(2) == 0 {
 			fn = defaultFunc(schema[f].ftype)
-		}
-		if fn == fnRate {
-			fn = fnSum // rate is checked by the expression stream
 		}
 		if !commutative(funcAgg(schema[f].ftype, fn)) {
 			firstLast = true
@@ -571,4 +595,85 @@ func genQuery(rng *rand.Rand, r *run, flds []int, useHist bool, fams []int) qSpe
 		q.by = []int{1, 2}
 	}
 	return q
+}
+
+// exprCheck: the function/expression layer on top of the leaf answer (what the root computes from
+// it) against the oracle's own function table: sum/min/max/first/last return the array of the
+// function's agg type, rate divides it by the query interval in seconds. Only for queries with
+// one agg type per field (finding two-functions-one-field-cross-aggregated is in the root's
+// merge as well).
+func (r *run) exprCheck(q qSpec, leaf aggResult) {
+	aggsOfField := map[int]map[int]bool{}
+	for _, it := range q.items {
+		a := funcAgg(schema[it.fld].ftype, it.fn)
+		if aggsOfField[it.fld] == nil {
+			aggsOfField[it.fld] = map[int]bool{}
+		}
+		aggsOfField[it.fld][a] = true
+	}
+	for _, m := range aggsOfField {
+		if len(m) > 1 {
+			return
+		}
+	}
+	got, err := r.e.exprEval(q)
+	if err != nil {
+		return
+	}
+	r.c.Branch("expr/checked")
+	secs := float64(r.ivMs * int64(q.ratio) / 1000)
+	for key, g := range leaf {
+		for idx, it := range q.items {
+			a := funcAgg(schema[it.fld].ftype, it.fn)
+			src := g[it.fld][a]
+			want := map[int]float64{}
+			for t, v := range src {
+				if it.fn == fnRate {
+					want[t] = v / secs
+				} else {
+					want[t] = v
+				}
+			}
+			have := got[key][idx]
+			same := len(have) == len(want)
+			for t, v := range want {
+				if hv, ok := have[t]; !ok || hv != v {
+					same = false
+				}
+			}
+			if !same {
+				r.c.Fail("expr-ne-function-table", fmt.Sprintf("%s item %d group %s: expression evaluates to %v, leaf array with the function applied is %v", q.sql(), idx, key, have, want))
+				return
+			}
+			if it.fn == fnRate {
+				r.c.Branch("expr/rate")
+			}
+		}
+	}
+}
+
+// realFuncCall applies aggregation/function's FuncCall / RateCall / AvgCall to a one-value array.
+func realFuncCall(fn, sec, v int) string {
+	arr := collections.NewFloatArray(1)
+	arr.SetValue(0, float64(v))
+	var res *collections.FloatArray
+	switch function.FuncType(fn) {
+	case function.Rate:
+		res = function.RateCall(int64(sec)*1000, arr)
+	case function.Avg:
+		res = function.AvgCall(arr)
+	default:
+		res = function.FuncCall(function.FuncType(fn), arr)
+	}
+	if res == nil || !res.HasValue(0) {
+		return "none"
+	}
+	got := res.GetValue(0)
+	if got == float64(v) && function.FuncType(fn) != function.Rate {
+		return fmt.Sprintf("%d/1", v)
+	}
+	if got == float64(v)/float64(sec) {
+		return fmt.Sprintf("%d/%d", v, sec)
+	}
+	return fmt.Sprintf("other(%v)", got)
 }
